@@ -58,8 +58,8 @@ Ltac solve_reply :=
     | apply Forall_cons; [cbn; auto|]
     | apply Forall_app; split ].
 
-Lemma h_allocate_reply cfg s src tid uid realm tr lt fam df rp s' acts :
-  h_allocate cfg s src tid uid realm tr lt fam df rp = (s', acts) -> Forall (reply_to src MAllocate tid) acts.
+Lemma h_allocate_reply cfg s src tid uid realm tr lt fam df rp ep rt mt s' acts :
+  h_allocate cfg s src tid uid realm tr lt fam df rp ep rt mt = (s', acts) -> Forall (reply_to src MAllocate tid) acts.
 Proof.
   unfold h_allocate. intros H.
   repeat (dmatch H; try (inversion H; subst; solve_reply; fail)).
@@ -242,7 +242,7 @@ Qed.
 Theorem not_owner_is_noop cfg s src tid c r uid s' acts :
   authenticate cfg s c = AuthOK uid ->
   (forall a, find_alloc src (allocs s) = Some a -> a_user a <> uid) ->
-  match r with RqAllocate _ _ _ _ _ | RqBinding => False | _ => True end ->
+  match r with RqAllocate _ _ _ _ _ _ _ _ | RqBinding => False | _ => True end ->
   step cfg s (EReq src tid c r false) = (s', acts) -> s' = s /\ acts = [].
 Proof.
   intros Ha Hown Hr H. cbn [step] in H. rewrite Ha in H.
